@@ -40,6 +40,7 @@ class Contract:
     lets: Dict[str, str] = field(default_factory=dict)       # spec-level abbreviations usable in clauses
     replay: Optional[str] = None     # 'module:function' under /verif/replay
     hints: List[str] = field(default_factory=list)           # extra lemma instances assumed after `requires` (each is itself an obligation of kind 'lemma')
+    region: Optional[Dict[str, str]] = None   # {'start': text, 'end': text, 'name': label}: verify only the statements of the function body from the one containing `start` up to (excluding) the one containing `end`; params are the region's free variables
     result_is: Optional[str] = None  # pure callee whose result is exactly this spec expression (over its parameters)
     exit_asserts: List[str] = field(default_factory=list)    # proof steps at every exit (each an obligation, then assumed); steps that cannot be evaluated on a path are skipped
     exit_hints: List[Any] = field(default_factory=list)      # axiom instances / unfold(...) assumed at every exit before the postcondition is checked
@@ -68,7 +69,8 @@ class Registry:
 
     def contract(self, file, qualname, **kw):
         c = Contract(file=file, qualname=qualname, pid=kw.pop('pid', self.pid), **kw)
-        self.contracts[c.key] = c
+        key = c.key if not c.region else (file, qualname + '#' + c.region.get('name', 'region'))
+        self.contracts[key] = c
         return c
 
     def assume_ext(self, dotted, **kw):
